@@ -24,7 +24,11 @@ ASSUMPTIONS = ["reference self-tests passed", "a returned (d,1) vector is compar
 
 
 def strategy(tier):
-    return S.program_case(["struct", "struct", "struct", "trace_out", "trace_out", "op", "comp"], max_steps=5)
+    from hypothesis import strategies as st
+
+    mix = ["struct", "struct", "struct", "trace_out", "trace_out", "op", "comp", "kraus", "measure", "resize"]
+    return st.one_of(S.program_case(mix, max_steps=5), S.program_case(mix, max_steps=5), S.program_case(mix, max_steps=5),
+                     S.lifecycle_case(tail_kinds=("struct", "trace_out", "resize", "op"), max_tail=2))
 
 
 def run_case(case):
